@@ -810,6 +810,13 @@ func genQuery(rng *rand.Rand, r *run, flds []int, useHist bool, fams []int) qSpe
 	if firstLast && rng.Intn(4) != 0 {
 		q.by = []int{1, 2}
 	}
+	if firstLast && r.realID != nil {
+		// container-boundary case: the series of a group may lie in several containers, which are
+		// loaded one after another (container, then family, then source) — a first/last over several
+		// series then follows an order the model (family, source, series) does not have; one series
+		// per group
+		q.by = []int{1, 2}
+	}
 	if firstLast && r.sh.maxFilesInRange(q) > 1 {
 		// several files of one family are read in a map iteration order: a first/last over
 		// several slots or several series spread over them is not reproducible
